@@ -140,7 +140,7 @@ def all_diffs(ri: dict, by_id: dict, deaths: list[dict], prog: dict) -> list[dic
         if d is not None:
             cls, detail, pid, what = d
             tag = prog["probe_tags"].get(str(pid)) if pid is not None else None
-            out.append({"class": cls, "detail": detail, "scenario": sc, "tag": tag or ("scenario:" + sc["tag"]), "what": what, "sid": sid})
+            out.append({"class": cls, "detail": detail, "scenario": sc, "tag": tag or ("scenario:" + sc["tag"]), "what": what, "sid": sid, "sctag": sc["tag"]})
         if len(out) >= 40:
             break
     return out
@@ -152,6 +152,9 @@ def signature_of(diff: dict, config: str) -> str:
         if diff["sub"] == "c-error":
             return "build-failure|c-error|%s|O%s" % (diff["kind"], config[1])
         return "build-failure|crash|%s" % diff["kind"]
+    if diff.get("sctag", "").startswith("binding") and c != "signal":
+        # a call CPython refuses to bind: whatever the compiled twin did instead, the root cause is the binding rule
+        return "binding-error|%s|%s" % (diff["sctag"].split(":", 1)[1], config)
     if c == "exception-type":
         return "exception-type|%s@%s|%s" % (diff["what"], diff["tag"], config)
     if c == "exception-message":
